@@ -153,6 +153,7 @@ def run_property(modname, tier, seed, replay=None, budget_s=None):
         for out in it:
             for res in out:
                 agg["cases_done"] += 1
+                agg.setdefault("walls", []).append((res.get("wall", 0), agg["cases_done"]))
                 agg["evals"] += res.get("evals", 0)
                 agg["keys"].update(res.get("keys", []))
                 for k, v in res.get("stats", {}).items():
@@ -230,6 +231,8 @@ def run_property(modname, tier, seed, replay=None, budget_s=None):
     for k, v in sorted(stats.items()):
         if not isinstance(v, list):
             print(f"    {k}={v}")
+    walls = sorted((w for w, _ in agg.get("walls", [])), reverse=True)
+    print(f"    slowest_cases_s={[round(w, 1) for w in walls[:4]]} sum_case_s={round(sum(walls), 1)}")
     if vac:
         for p in vac:
             print(f"HARNESS-ERROR vacuity: {p}")
